@@ -35,6 +35,7 @@ CONSTANTS
   Generic,      \* TRUE = FailoverOf[V]
   LogOn,        \* a Logger is configured (log call-outs exist)
   StatOn,       \* a StatsTracker is configured (stats call-outs exist)
+  NoOpBe,       \* the backend is cache.NoOp: reads always miss, writes are dropped
   Mutability,   \* ObserveMutability: count rebuilt values that differ from the previous one (cache_changed)
   InitBeSet,    \* set of [Keys -> entry | None]: prepared backend contents to start from
   InitErrsSet,  \* set of [Keys -> entry | None]: prepared failure cache contents to start from
@@ -170,7 +171,7 @@ UNCH_met   == UNCHANGED <<met, gh>>
 (* Backend and failure-cache primitives                                    *)
 
 ReadRes(k, skip) ==
-  IF skip \/ be[k] = None THEN [c |-> "notfound", v |-> NoVal, e |-> 0]
+  IF skip \/ NoOpBe \/ be[k] = None THEN [c |-> "notfound", v |-> NoVal, e |-> 0]
   ELSE IF be[k].e <= now THEN [c |-> "expired", v |-> be[k].v, e |-> be[k].e]
   ELSE [c |-> "hit", v |-> be[k].v, e |-> 0]
 
@@ -183,7 +184,7 @@ EntryFor(v, ttl, dflt) ==
   [v |-> v, e |-> IF eff = 0 THEN NoExp ELSE now + eff]
 
 BeWrite(k, v, ttl, kind) ==
-  /\ be' = [be EXCEPT ![k] = EntryFor(v, ttl, BeTTL)]
+  /\ be' = IF NoOpBe THEN be ELSE [be EXCEPT ![k] = EntryFor(v, ttl, BeTTL)]
   /\ stored' = [stored EXCEPT ![k] = @ \cup {v}]
   /\ writes' = Append(writes, [k |-> k, v |-> v, ttl |-> ttl, kind |-> kind])
   /\ bsrc' = [bsrc EXCEPT ![k] = kind]
